@@ -1,7 +1,7 @@
 (* Roundtrip/CommonProofs.v -- lemmas about the vocabulary of Common.v *)
 From EP Require Import Base.Bytes Roundtrip.Common.
 Local Open Scope N_scope.
-From Coq Require Import ZArith Lia ZifyN ZifyBool.
+From Coq Require Import ZArith Lia ZifyN.
 
 Ltac dmlia := zify; Z.div_mod_to_equations; lia.
 
@@ -270,3 +270,40 @@ Proof.
   replace (N.to_nat i) with (S (N.to_nat (i - 1))) by lia. cbn [nth_error].
   apply IH. lia.
 Qed.
+
+(* ---- agree ---- *)
+Lemma masked_idem k c : masked k (masked k c) = masked k c.
+Proof.
+  revert c. induction k as [|x k IH]; intros [|y c]; cbn [masked]; auto.
+  rewrite IH. f_equal. rewrite <- N.land_assoc, N.land_diag. reflexivity.
+Qed.
+
+Lemma agree_of_masked k e c : len k = len c -> e = masked k c -> agree k e c.
+Proof.
+  intros L ->. unfold agree. split; [|split].
+  - rewrite len_masked; [lia|]. apply Nat2N.inj. exact L.
+  - lia.
+  - apply masked_idem.
+Qed.
+
+Lemma land_255 b : b < 256 -> N.land b 255 = b.
+Proof. intros H. change 255 with (N.ones 8). rewrite N.land_ones. apply N.mod_small. exact H. Qed.
+
+Lemma masked_ones_app a k b : bytes_ok a -> masked (ones (len a) ++ k) (a ++ b) = a ++ masked k b.
+Proof.
+  intros H. rewrite masked_app.
+  - now rewrite masked_ones.
+  - pose proof (len_ones (len a)) as L. apply Nat2N.inj. exact L.
+Qed.
+
+Lemma bytes_ok_explicit_cons b r : b < 256 -> bytes_ok r -> bytes_ok (b :: r).
+Proof. intros. apply bytes_ok_cons. split; assumption. Qed.
+
+(* ok-ness of a byte of an explicit list hypothesis *)
+Ltac bytes_ok_split H :=
+  repeat (let Hb := fresh "B" in apply bytes_ok_cons in H; destruct H as [Hb H]; unfold byte_ok in Hb).
+
+Lemma Some_inj {A} (x y : A) : Some x = Some y -> x = y.
+Proof. intros H. injection H. auto. Qed.
+Lemma Ok_inj {A} (x y : A) : Ok x = Ok y -> x = y.
+Proof. intros H. injection H. auto. Qed.
